@@ -8,7 +8,7 @@ PROP = {
             "distinct = hash of stored abscissae and ordinates. Per table 24 limit pairs of 7 kinds (inside one interval, spanning many, at knots, knot+interior, "
             "1% extrapolation zone incl. both limits in one zone, tiny interval, whole domain), either order, interleaved with random Set_Prefactor/Multiply histories "
             "(positive, negative, 1e-30, 1e30); 2D grids with four prefactor rounds",
-    "floors": {"quick": {"cases": 3000, "distinct_nontrivial": 1000,
+    "floors": {"quick": {"cases": 15000, "distinct_nontrivial": 12000,
                          "clauses": {"integrate-is-integral-of-interpolate": 40000, "integrate-antisymmetric-bit-exact": 40000, "integrate-additive-over-adjacent-intervals": 40000,
                                      "integrate-scales-with-prefactor": 40000, "local-minimum-is-smallest-curve-value": 30000, "no-evaluation-below-local-minimum": 40000,
                                      "local-minimum-is-attained-incl-extrapolation-zone": 3000, "local-extrema-scale-with-prefactor-exactly": 40000,
